@@ -6,7 +6,7 @@ TITLE = "state discrimination values are certified optima"
 LEVEL = "exploration"
 BUDGET = {"quick": 80, "thorough": 900}
 ENGINES = ["E4-rtc"]
-TECHNIQUE = "run-time-checked contracts on the real functions over a bounded domain (bounded stand-in)"
+TECHNIQUE = "program contracts of the picos SDP builders and term contracts of the thin wrappers (VCs from the real AST, z3); frame clauses by taint analysis; run-time-checked contracts with weak-duality certificates over a bounded domain (bounded stand-in) for every value"
 LEVEL_TEXT = (
     "Bounded only; nothing is proved. Every clause calls the real state_distinguishability / is_distinguishable / to_density_matrix / "
     "vectors_to_gram_matrix on ensembles built from a seed and compares with an oracle that does not re-run the function's SDP: the returned "
@@ -758,6 +758,8 @@ from props.disc_prove import prove_for as _prove_for  # noqa: E402
 
 prove = _prove_for(ID)
 LEVEL_TEXT = LEVEL_TEXT + (" Proved (E1-term, callees by parameter name): is_distinguishable(states, probs) == isclose(dual min-error value for the same states and priors, 1). The SDP values themselves are bounded checks.")
+LEVEL_TEXT = LEVEL_TEXT + (" Proved (E1-prog, 2 and 3 states, all dimensions and priors): each of the four builders of state_distinguishability hands the solver exactly the stated program (min-error primal: max sum_i p_i <rho_i, M_i> s.t. M_i >= 0, sum M_i = I; dual: min Tr Y s.t. Y >= p_i rho_i with the measurement read from the duals in that order; unambiguous primal / dual over the Gram matrix), solves it once with the caller's solver and returns its optimum; the entry point dispatches by (strategy, primal_dual) with probs or the uniform prior and dim = calculate_vector_matrix_dimension(vectors[0]).")
+TRUSTED.append("E1-prog (program contracts): matrices and picos variables are uninterpreted terms; picos semantics assumed: A >> B / A << B are the Loewner-order constraints, A | B the Hilbert-Schmidt inner product, * the matrix product, picos.sum / trace / I / diag / partial_transpose what their names say, .real / np.real of a real affine expression the identity; linearity facts used as z3 axioms: <sA,B> = <A,sB> = s<A,B>, (sA)B = s(AB), Tr(sA) = s Tr(A), Tr(AB) = <A,B> for Hermitian A (to_density_matrix(.) and its real multiples and sums); the solver returns the optimum of the program it is handed (certified only on the bounded tier); number of states enumerated (2, 3; 4 thorough)")
 EXPLANATION = LEVEL_TEXT
 if "E1-pyvc" not in ENGINES:
     ENGINES = ["E1-pyvc"] + list(ENGINES)
